@@ -134,7 +134,8 @@ fn apply_edit(ps: &[Piece], kind: &str, rng: &mut Rng) -> Option<String> {
                 let ins = match kind {
                     "trailing_comment" => {
                         if before.contains('#') { continue; }
-                        format!("{before}  # note: x = (1\n{}", &g[pos + 1..])
+                        // half of the comments carry multi-byte text (a comment's length in bytes is not its length in characters)
+                        if rng.chance(1, 2) { format!("{before}  # note: x = (1\n{}", &g[pos + 1..]) } else { format!("{before}  # n\u{e9}gatif \u{2192} z\u{e9}ro \u{4e2d}\u{6587} (1\n{}", &g[pos + 1..]) }
                     }
                     "trailing_space" => {
                         if before.contains('#') { continue; }
@@ -182,7 +183,7 @@ fn apply_edit(ps: &[Piece], kind: &str, rng: &mut Rng) -> Option<String> {
                 let ind = " ".repeat(rng.below(13) as usize);
                 q[i].gap = match rng.below(3) {
                     0 => format!("{}\n{ind}", q[i].gap),
-                    1 => format!("{} # c\n{ind}", q[i].gap),
+                    1 => if rng.chance(1, 2) { format!("{} # c\n{ind}", q[i].gap) } else { format!("{} # \u{4e2d}\u{6587}\u{6ce8}\u{91ca} \u{e9}\u{e8}\n{ind}", q[i].gap) },
                     _ => format!("{}\n\n{ind}", q[i].gap),
                 };
             }
